@@ -18,11 +18,26 @@ Partial: `slot_order` for slot delay = 0 is not claimed (everything happens in o
   then that of the kernel queue).  What leaves the exit first among several waiting items is C06's binding
   discipline (FIFO, also after cancellation), not repeated here.
 
-CONTINUOUS conveyor (edges/continuous_conveyor.py on base/belt_store.py): see the second half of this
-file once Model/CBelt.lean is present; until then only the slotted conveyor is covered (stated in
-MANIFEST.json / the evidence file).
+CONTINUOUS conveyor (edges/continuous_conveyor.py on base/belt_store.py, after the repairs ee8962d (D11c),
+8772181 (D10), 180d48c (D25), 8de3dbd (D26)): Model/CBelt.lean — the conveyor's state machine, one move process per
+item with its two-phase timer and interrupt / resume, the delayed-interrupt processes, the belt-pattern analysis and
+every kernel event explicit — tied to the code by the lock-step correspondence of the `cbelt` family (every API call
+and every single kernel event compared, plus the probes `mode`, `pat`, `stuck`) and by the C12 judge.
+Proved for the continuous conveyor, for EVERY operation / kernel-event sequence (`ReachC`), both accumulation modes:
+  capacity (`cbelt_capacity`), one item entering at a time (`cbelt_one_entering`),
+  EXACT travel accounting (`cbelt_travel_exact`): an item is offered at the exit at exactly
+      entry + capacity·(item_length/speed) + (time it spent stopped by interrupts),
+  hence never earlier than the full belt travel time (`cbelt_min_travel`) and exactly the belt travel time when it
+  was never stopped (`cbelt_exact_when_never_stopped`); the clock cannot pass a pending travel timer (`cbelt_clock`).
+NOT proved for the continuous conveyor (decided only by the lock-step check and the judge rules `order`, `spacing`,
+  `exit-order`): arrival at the exit in entry order, spacing of successive entries.  Stated here so that the gap is visible.
+Domain of the model: every item has the conveyor's item length; an object is put only while it is not on the belt; no
+API call between a put and the Initialize of its move process; histories in which `_get_belt_pattern` raises are cut
+there (`gaveUp`; none in the sampled histories after the repairs).
 -/
 import FsVerif.Proofs.SlotBelt3
+import FsVerif.Proofs.CBeltTime6
+import FsVerif.Proofs.CBeltRoom
 namespace FsVerif.Props.C12
 open FsVerif SlotBelt
 
@@ -72,5 +87,58 @@ def demo : List Op :=
 
 example : (SlotBelt.run (init { cap := 4, delay := 2 }) demo).entered.map (fun e => (e.seq, e.entry)) = [(0, 0), (1, 2)] ∧
     (SlotBelt.run (init { cap := 4, delay := 2 }) demo).readyAt = [(0, 8), (1, 10)] := by decide
+
+/-! ## continuous conveyor -/
+
+open CBelt in
+/-- reachable states of the continuous-conveyor model -/
+def ReachC (s : CBelt) : Prop := ∃ cfg ops, s = CBelt.run (CBelt.init cfg) ops
+
+theorem reachC_ti {s : CBelt} (h : ReachC s) : CBelt.TI s := by
+  obtain ⟨cfg, ops, rfl⟩ := h
+  exact CBelt.run_ti ops _ (CBelt.init_ti cfg)
+
+theorem reachC_room {s : CBelt} (h : ReachC s) : CBelt.RoomC s := by
+  obtain ⟨cfg, ops, rfl⟩ := h
+  exact CBelt.run_roomC ops _ (CBelt.init_roomC cfg)
+
+/-- never more than `capacity` items on the conveyor, granted-unused space reservations included -/
+theorem cbelt_capacity {s : CBelt} (h : ReachC s) : s.putRes.length + (s.items.length + s.ready.length) ≤ s.cfg.cap :=
+  (reachC_room h).room
+
+/-- one item enters at a time -/
+theorem cbelt_one_entering {s : CBelt} (h : ReachC s) : s.putRes.length ≤ 1 := (reachC_room h).one
+
+/-- every item that was offered at the exit was offered at exactly entry + capacity·p1 + its total interruption time -/
+theorem cbelt_travel_exact {s : CBelt} (h : ReachC s) :
+    ∀ a ∈ s.arrivals, ∃ e ∈ s.entered, e.seq = a.q ∧ a.t = e.entry + s.cfg.cap * s.cfg.p1 + a.ti :=
+  (reachC_ti h).arrOK
+
+/-- … never earlier than the full belt travel time after it entered -/
+theorem cbelt_min_travel {s : CBelt} (h : ReachC s) :
+    ∀ a ∈ s.arrivals, ∃ e ∈ s.entered, e.seq = a.q ∧ e.entry + s.cfg.cap * s.cfg.p1 ≤ a.t := by
+  intro a ha
+  obtain ⟨e, he, h1, h2⟩ := cbelt_travel_exact h a ha
+  exact ⟨e, he, h1, by omega⟩
+
+/-- … and exactly the belt travel time if it was never stopped -/
+theorem cbelt_exact_when_never_stopped {s : CBelt} (h : ReachC s) :
+    ∀ a ∈ s.arrivals, a.ti = 0 → ∃ e ∈ s.entered, e.seq = a.q ∧ a.t = e.entry + s.cfg.cap * s.cfg.p1 := by
+  intro a ha h0
+  obtain ⟨e, he, h1, h2⟩ := cbelt_travel_exact h a ha
+  exact ⟨e, he, h1, by omega⟩
+
+/-- the clock cannot pass a pending kernel event (in particular a travel timer) -/
+theorem cbelt_clock {s : CBelt} (h : ReachC s) : ∀ ev ∈ s.queue, s.now ≤ ev.time := (reachC_ti h).clock
+
+/-! ### non-vacuity: capacity 3, p1 = 2 (travel 6), non-accumulating: item 5 enters at 0 and is offered at 6; nobody
+takes it until t = 18; item 6 entered at 2, is stopped from 6 to 18 (12 ticks) and is offered at 2 + 6 + 12 = 20 -/
+
+def demoC : List CBelt.Op :=
+  [.reservePut 0, .put 0 0 { id := 5 }, .ev, .adv 2, .ev, .ev, .ev, .reservePut 0, .put 0 1 { id := 6 }, .ev] ++
+  List.replicate 9 .ev ++ [.adv 2, .ev, .adv 8, .reserveGet 1, .get 1 2] ++ List.replicate 12 .ev
+
+example : (CBelt.run (CBelt.init { cap := 3, p1 := 2, acc := false }) demoC).arrivals.map (fun a => (a.q, a.t, a.ti)) = [(0, 6, 0), (1, 20, 12)] := by
+  decide
 
 end FsVerif.Props.C12
